@@ -15,7 +15,7 @@ CHECKS = {
  "C04": ("model_checking", "seqx", "explicit-state BFS with count oracle and counter-write log",
          "After every step of every history the count is read through every accessor of every live handle (and inside borrow callbacks) and must equal the model's owner count; the hook log must show exactly one +1 per clone-style step, one -1 per release and no write at all for moves, conversions, borrows, comparisons.",
          "as C01; counter writes are observed through the cfg(triomphe_verif) shim"),
- "C08": ("model_checking", "seqx+loomx", "explicit-state BFS (copy-on-write oracle) + loom exploration of writer-vs-readers programs",
+ "C08": ("model_checking", "seqx+loomx+gridx", "explicit-state BFS (copy-on-write oracle, incl. Clone panics) + loom exploration of writer-vs-readers programs + degenerate-payload grid",
          "History half: make_mut/make_unique/OffsetArc::make_mut in every state: in place iff sole owner, otherwise exactly one Clone, one fresh block, old allocation loses one owner, every other handle still reads the old value. Schedule half: under loom the writer's write never races with or becomes visible to another owner and both branches occur.",
          "as C01 and C02"),
  "C09": ("model_checking", "seqx+loomx", "explicit-state BFS (unwrap oracle) + loom exploration of racing unwrap/drop programs",
@@ -46,10 +46,10 @@ CHECKS = {
          "What model checking can do for a type-level property is enumerate a finite matrix of client programs and let rustc decide each one against the real crate: 278 auto-trait cells (handle kind x payload class per parameter x {Send,Sync}, plus the generic for-all-T form with each bound removed) whose E0277 set must equal the set the property says is rejected, both directions; 49 borrow-escape cells (borrow source x escape route) each of which must be rejected with a lifetime error in its own function, and 49 positive controls that must compile. It cannot quantify over all safe programs; that limit is stated in DESIGN.md and the evidence.",
          "finite matrix; rustc is the oracle; a hole outside the matrix is not found"),
  "C16": ("exploration", "gridx", "exhaustive enumeration of starting count x clone entry point x {std, no_std}, one child process per cell",
-         "Every cell of (10 starting counts around isize::MAX and usize::MAX) x (16 clone entry points over all handle kinds and borrow callbacks) x (std, no_std builds) runs in its own child process: the count word is located through the hook log and pre-set, the clone is wrapped in catch_unwind; above the limit the child must die by SIGABRT with no handle produced and nothing caught, at or below it the clone returns and adds exactly one.",
+         "Every cell of (10 starting counts around isize::MAX and usize::MAX) x (16 clone entry points over all handle kinds and borrow callbacks) x (std, no_std builds) runs in its own child process: the count word is located through the hook log and pre-set, the clone is wrapped in catch_unwind; above the limit the child must die by SIGABRT with no handle produced and nothing caught, at or below it the clone returns and adds exactly one. An interference grid interleaves a second clone of the same allocation before each atomic step of the clone under test (through the hook table, deterministically): whenever any increment finds the count already past isize::MAX the process must abort.",
          "the count word is written through the address revealed by the cfg(triomphe_verif) shim; SIGABRT/SIGILL/SIGTRAP count as abort"),
  "C17": ("fault_enumeration", "gridx", "exhaustive fault injection into a recording serializer and a value-tree deserializer (failure at each k-th callback)",
-         "For every value of the payload family (integers, strings, tuples, sequences, options, hand-written struct/enum/newtype+map) and every k the sequence of Serializer calls and the result through Arc<T>/UniqueArc<T> must be identical to those of serialising the value; for every input tree (well-formed and ill-typed) and every k deserialising the handle is Ok iff the value's deserializer is Ok, with an equal value, count 1 and exactly one extra allocation, and on Err the same error and nothing left allocated.",
+         "For every value of the payload family (integers, strings, tuples, sequences, options, hand-written struct/enum/newtype+map) and every k the sequence of Serializer calls and the result through Arc<T>/UniqueArc<T> must be identical to those of serialising the value; for every input tree (well-formed and ill-typed) and every k deserialising the handle is Ok iff the value's deserializer is Ok, with an equal value, count 1 and exactly one extra allocation, and on Err the same error and nothing left allocated; deserialize_in_place on a sole or shared place must leave a fresh sole owner (sibling untouched) or, on failure, the place exactly as it was.",
          "two hand-written serde back ends stand for 'every serializer'; serde feature on"),
  "C10": ("model_checking", "seqx+gridx", "explicit-state BFS over thin/fat handle histories incl. every with_arc_mut callback behaviour x {return, panic}; exhaustive recorded-length grid for into_thin",
          "Universe T of the explicit-state search reaches every state of fat, protected, thin, raw and unique handles to header+slice allocations of length 0 and 2 (<=4/5 handles, <=2 allocations); in every state thin and fat views must show the same header, recorded length == slice length, and identical element addresses; conversions keep the block and write no count; every with_arc_mut callback behaviour (nothing, write, clone out, replace by a fresh Arc, swap with another live Arc) with and without a panic must leave the ThinArc pointing at what the callback left and the replaced allocation with exactly one owner less. The grid half calls into_thin for every (true length, recorded length, shape pair, sole/co-owned) and ThinArc::from_header_and_iter under every 3-answer script of ExactSizeIterator::len().",
@@ -68,7 +68,7 @@ m = {
  },
  "engines": [
   {"name": "seqx", "path": "harness/seqx", "serves_properties": ["C01", "C03", "C04", "C08", "C09", "C10", "C11"], "kind_free_text": "explicit-state BFS over handle histories; each transition re-executes the history on the real crate under the arena allocator and compares with a reference model"},
-  {"name": "gridx", "path": "harness/gridx", "serves_properties": ["C03", "C05", "C06", "C07", "C10", "C11", "C12", "C14", "C15", "C16", "C17"], "kind_free_text": "exhaustive enumeration of finite shape / input / fault grids, each cell executed on the real crate under the arena allocator"},
+  {"name": "gridx", "path": "harness/gridx", "serves_properties": ["C03", "C08", "C05", "C06", "C07", "C10", "C11", "C12", "C14", "C15", "C16", "C17"], "kind_free_text": "exhaustive enumeration of finite shape / input / fault grids, each cell executed on the real crate under the arena allocator"},
   {"name": "typex", "path": "lib/typex.py", "serves_properties": ["C13"], "kind_free_text": "generator of client probe crates + cargo check driver; rustc decides each cell"},
   {"name": "loomx", "path": "harness/loomx", "serves_properties": ["C02", "C03", "C08", "C09"], "kind_free_text": "loom 0.7.2 stateless exploration of thread programs on the real crate through the cfg(triomphe_verif) atomic shim"},
  ],
